@@ -66,6 +66,9 @@ func w2Configs(r *rand.Rand, thorough bool) []W2Cfg {
 	cfgs := []W2Cfg{
 		{3, 0, 2, 4096, 273, 0}, {3, 0, 2, 4096, 4096, 1}, {0, 0, 0, 65536, 4096, 0}, {4, 0, 4, 65536, 273, 1},
 		{0, 4, 0, 1 << 20, 274, 0}, {2, 2, 1, 1 << 20, 65536, 1}, {3, 0, 2, 4097, 273, 1}, {1, 3, 3, 65536 - 273, 4096, 0},
+		// dictionary below the 64 KiB chunk limit with a look-ahead that lifts the ring above it: a
+		// chunk may end while part of it has already left the dictionary
+		{3, 0, 2, 32768, 49152, 0}, {3, 0, 2, 49152, 32768, 1}, {0, 0, 0, 60000, 8192, 0}, {3, 0, 2, 16384, 65536, 0},
 	}
 	if thorough {
 		cfgs = append(cfgs, W2Cfg{3, 0, 2, 8 << 20, 4096, 0}, W2Cfg{3, 0, 2, 8 << 20, 4096, 1}, W2Cfg{0, 0, 4, 4096, 65536, 0}, W2Cfg{4, 0, 0, 3 << 19, 300, 1})
